@@ -123,7 +123,7 @@ def _fact(n):
 
 class VLoop(asyncio.BaseEventLoop):
     def __init__(self, ctl: Controller, step_limit: int = 2_000_000, timers_optional: bool = True,
-                 wait_perm: bool = True):
+                 wait_perm: bool = True, idle_only: bool = False):
         super().__init__()
         self.ctl = ctl
         self._vtime = 0.0
@@ -135,6 +135,9 @@ class VLoop(asyncio.BaseEventLoop):
         self.step_limit = step_limit
         self.timers_optional = timers_optional
         self.wait_perm = wait_perm
+        # idle_only: the environment acts only when no callback is ready (I/O completions are delivered between
+        # bursts of computation, never inside one) -- a sub-space of the full model that reaches deeper bounds
+        self.idle_only = idle_only
         self.exceptions = []
         self.events = []  # ordered observable event log (harness + loop)
         self.state_acc = 0  # order-insensitive accumulator of events
@@ -200,6 +203,8 @@ class VLoop(asyncio.BaseEventLoop):
     def _menu(self):
         opts = []
         if self._ready:
+            if self.idle_only:
+                return [("r", None)]
             opts.append(("r", None))
         seen_channels = set()
         stale = False
@@ -341,10 +346,11 @@ class Execution:
 
 
 def execute(main_factory, prefix=(), *, step_limit=2_000_000, keep_labels=False, timers_optional=True,
-            wait_perm=True, keep_events=False):
+            wait_perm=True, keep_events=False, idle_only=False):
     """Run ``main_factory(loop)`` (returns a coroutine) under a fresh VLoop replaying ``prefix``."""
     ctl = Controller(prefix, keep_labels=keep_labels)
-    loop = VLoop(ctl, step_limit=step_limit, timers_optional=timers_optional, wait_perm=wait_perm)
+    loop = VLoop(ctl, step_limit=step_limit, timers_optional=timers_optional, wait_perm=wait_perm,
+                 idle_only=idle_only)
     ex = Execution()
     ex.error = None
     ex.result = None
